@@ -180,8 +180,42 @@ impl Future for TwoPhase {
   }
 }
 
+/// Timer of the ticker scenarios: waiting for it is a `yield_now().await` —
+/// everybody else gets the chance to run first, and the explorer is charged for
+/// resuming the ticker before them. A ticker whose task is never retired would
+/// tick for ever: that is reported after `MAX_TICKS` waits.
+pub const MAX_TICKS: u64 = 300;
+async fn yield_timer() {
+  let n = TIMER_WAITS.with(|c| {
+    *c.borrow_mut() += 1;
+    *c.borrow()
+  });
+  assert!(n < MAX_TICKS, "a periodic task is still ticking after {MAX_TICKS} timer waits: it was never retired");
+  // pending + self-wake + "this task yields": the task's poll returns (releasing
+  // whatever it holds), everybody else is offered first
+  shuttle::future::yield_now().await
+}
+
+thread_local! {
+  static YIELD_TIMERS: RefCell<bool> = RefCell::new(false);
+  static TIMER_WAITS: RefCell<u64> = RefCell::new(0);
+}
+
+/// ticker scenarios switch to yielding timers (must follow `reset_world`)
+pub fn use_yield_timers() {
+  YIELD_TIMERS.with(|y| *y.borrow_mut() = true);
+}
+
+pub fn timer_waits() -> u64 {
+  TIMER_WAITS.with(|c| *c.borrow())
+}
+
 fn new_vtimer(_d: Duration) -> BoxFuture<'static, ()> {
-  Box::pin(TwoPhase(false))
+  if YIELD_TIMERS.with(|y| *y.borrow()) {
+    Box::pin(yield_timer())
+  } else {
+    Box::pin(TwoPhase(false))
+  }
 }
 
 pub fn install_timer_fn() {
@@ -193,6 +227,8 @@ pub fn install_timer_fn() {
 pub fn reset_world() {
   POOL.with(|p| p.borrow_mut().clear());
   SPAWNED.with(|s| *s.borrow_mut() = 0);
+  YIELD_TIMERS.with(|y| *y.borrow_mut() = false);
+  TIMER_WAITS.with(|c| *c.borrow_mut() = 0);
 }
 
 /// the most general executor: every scheduled task is its own controlled task
